@@ -439,5 +439,9 @@ PROPS["C13"]["explanation"] += " (RELKEY) a public routine that releases the ide
 PROPS["C01"]["rules"] = PROPS["C01"]["rules"] + [rules_idioms.rule_written_local_initialised]
 PROPS["C01"]["explanation"] += " (INITWRITE) a local whose bytes are written to the file has been given a value (the byte that reserves a block is zero, so gaps read as zeros)."
 
+PROPS["C20"]["rules"] = PROPS["C20"]["rules"] + [rules_limits.rule_dd_length_nonnegative]
+PROPS["C20"]["explanation"] += " (NEGLEN) a caller-supplied length is compared with 0 before a public routine stores it in a descriptor."
+PROPS["C01"]["rules"] = PROPS["C01"]["rules"] + [rules_limits.rule_dd_length_nonnegative]
+
 NOT_APPLICABLE = {}
 
